@@ -619,7 +619,11 @@ class C17(Check):
                 res.probe("load_accepted_complete" if not lacking else "load_accepted_incomplete")
             else:
                 # ---- raised
-                must_accept = same_reg and not lacking and (params_ok or not has_e) and has_time and spec.get("mutation") is None and (j == T["writer"] or spec.get("cross_of") == T["writer"]) and not T["deleted"]
+                # the reader describes the same physical grid as the writer (registration specs, z-y-x origin):
+                # what the file stores for it is the implementation's business
+                grid_same = (not has_e) or (spec.get("grid") == wspec.get("grid"))
+                lost_params = has_e and any(F.attrs.get(("Eulerian/Parameters", k)) is None for k in ("origin", "dx", "grid_size"))
+                must_accept = same_reg and not lacking and grid_same and not lost_params and has_time and spec.get("mutation") is None and (j == T["writer"] or spec.get("cross_of") == T["writer"]) and not T["deleted"]
                 if must_accept and T["ack"] and tag in ("none", "recovery"):
                     res.violation(
                         "rejected_matching_file",
